@@ -229,8 +229,15 @@ func (w *World) ruleIndexGuardsPX(r *Report, rule string, names []string) {
 		want[n] = true
 	}
 	n := 0
+	// named readers: the reader itself and the helpers it delegates part of its
+	// own work to (not the readers of nested values)
+	var scope map[*ssa.Function]map[string]bool
+	served := map[string]bool{}
+	if names != nil {
+		scope = w.helperScopes(names)
+	}
 	for _, fn := range w.SrcFuncs() {
-		if names != nil && !want[fnName(fn)] {
+		if names != nil && scope[fn] == nil {
 			continue
 		}
 		if names == nil {
@@ -264,6 +271,9 @@ func (w *World) ruleIndexGuardsPX(r *Report, rule string, names []string) {
 			continue
 		}
 		n += len(order)
+		for nm := range scope[fn] {
+			served[nm] = true
+		}
 		res, complete := w.pxIndexRun(fn, sites, nil)
 		for _, ia := range order {
 			sr := res[ia]
@@ -288,11 +298,13 @@ func (w *World) ruleIndexGuardsPX(r *Report, rule string, names []string) {
 			}
 		}
 	}
-	min := 2
 	if names == nil {
-		min = 4
+		r.floor(rule+" (table index uses)", n, 4)
+	} else {
+		// every named reader reaches a checked table access (itself or through a helper)
+		r.floor(rule+" (readers whose table access is checked)", len(served), len(names))
 	}
-	r.floor(rule+" (table index uses)", n, min)
+	_ = want
 }
 
 // indexProvenInCallers: the access ia is proven in the context of every caller
@@ -333,4 +345,41 @@ func (w *World) indexProvenInCallers(chain []*ssa.Function, ia *ssa.IndexAddr) (
 		}
 	}
 	return true, strings.Join(oks, ", ")
+}
+
+// helperScopes: for each named function, the function itself and the in-package
+// functions it reaches by static calls through functions that cannot reach the
+// value dispatch (ReadData) — the helpers a reader delegates part of its own
+// work to, as opposed to the readers of nested values.  Result: function ->
+// names of the roots it works for.
+func (w *World) helperScopes(names []string) map[*ssa.Function]map[string]bool {
+	out := map[*ssa.Function]map[string]bool{}
+	reachesRD := w.reachesReadData()
+	for _, name := range names {
+		root := w.fn(name)
+		if root == nil {
+			continue
+		}
+		seen := map[*ssa.Function]bool{}
+		var walk func(fn *ssa.Function)
+		walk = func(fn *ssa.Function) {
+			if seen[fn] {
+				return
+			}
+			seen[fn] = true
+			if out[fn] == nil {
+				out[fn] = map[string]bool{}
+			}
+			out[fn][name] = true
+			for _, cs := range w.callSitesIn(fn) {
+				sc := cs.call.Call.StaticCallee()
+				if sc == nil || !w.inPkg(sc) || sc.Blocks == nil || reachesRD == nil || reachesRD[sc] {
+					continue
+				}
+				walk(sc)
+			}
+		}
+		walk(root)
+	}
+	return out
 }
